@@ -2,7 +2,7 @@
 
 Model: spec/Sessions.tla (MC_Sessions exhaustive: 1 server + 2 clients, users {admin, u1}, passwords
 {p, q, wrong}, MaxRemote 2, Timeout 2).  Binding: TLC -simulate behaviours of the model (MaxRemote and
-Timeout 1..2, refused attempts included) are replayed request by request / tick by tick on three
+Timeout 1..3, refused attempts included) are replayed request by request / tick by tick on three
 connected real nodes (a server, router or firewall as the SSH target and two hosts as clients) through the
 request API the agent actions use; after every call the accounts, local user, the server's remote
 sessions, the clients' connection handles, power / service flags, the answer and the *effect* of the
@@ -21,6 +21,7 @@ PROP = "C16"
 MC_ACTIONS = ["MAddUser", "MDisableUser", "MChangePassword", "MLocalLogin", "MRemoteLogin", "MRemoteCommand",
               "MRemoteCommandStale", "MLogoff", "MTick", "MTickTimeout", "MNodeOff", "MNodeOn", "MServiceStop",
               "MServiceStart"]
+# the refused attempts exist only as stimuli (stuttering steps of the design): checked on the simulation output
 SIM_ACTIONS = MC_ACTIONS + ["MAddUserNo", "MDisableUserNo", "MChangePasswordNo", "MLocalLoginNo", "MRemoteLoginNo",
                             "MRemoteCommandNo", "MLogoffNo"]
 
